@@ -21,6 +21,7 @@
 (* registers a descriptor equal to the input, and its message types are     *)
 (* wire-, JSON- and reflection-equivalent to dynamicpb.  gofmt and the Go   *)
 (* compiler are sensors: their verdicts are recorded observations.          *)
+(* Services and the other type references of a file: see GenService.        *)
 (***************************************************************************)
 EXTENDS Integers, Sequences, TLC
 
@@ -78,16 +79,23 @@ HasPresence(s) == s.card \in {"optional", "required"}            \* incl. oneof 
 IsPacked(s) == IsList(s) /\ s.kind \in Packable /\ (s.packed = "true" \/ (s.packed = "default" /\ s.syn # "proto2"))
 
 \* ---- the pipeline: what C41 demands of one generated package (an item of a batch)
-\* item kinds: "shapes" (one message with one field per shape), "msgnames" (a GoNamesMsg declaration), "schema" (random)
+\* item kinds: "shapes" (one message with one field per shape), "msgnames" (a GoNamesMsg declaration), "schema" (random),
+\* "services" (a file with two services holding the listed methods, GenService.tla: the registered descriptor must report
+\* the declared input, output and streaming flags of every method)
+MethodDeclared(m) == [in |-> m.in, out |-> m.out, cs |-> m.cs, ss |-> m.ss]
 Stages == <<"generated", "gofmt", "compiles", "descriptor", "wire", "json", "reflect">>
 AllPass == [generated |-> TRUE, gofmt |-> TRUE, compiles |-> TRUE, descriptor |-> TRUE, wire |-> TRUE, json |-> TRUE, reflect |-> TRUE]
 Expect(e) ==
   IF e.op = "shapes"
   THEN AllPass @@ [presence |-> [i \in 1..Len(e.shapes) |-> HasPresence(e.shapes[i])],
                    packed |-> [i \in 1..Len(e.shapes) |-> IsPacked(e.shapes[i])]]
+  ELSE IF e.op = "services"
+  THEN AllPass @@ [methods |-> [i \in 1..Len(e.methods) |-> MethodDeclared(e.methods[i])]]
   ELSE AllPass
 Allowed(e) ==
   /\ \A i \in 1..Len(Stages) : Stages[i] \in DOMAIN e.out /\ e.out[Stages[i]] = TRUE
   /\ (e.op = "shapes") => (/\ e.out.presence = [i \in 1..Len(e.shapes) |-> HasPresence(e.shapes[i])]
                            /\ e.out.packed = [i \in 1..Len(e.shapes) |-> IsPacked(e.shapes[i])])
+  /\ (e.op = "services") => (/\ "methods" \in DOMAIN e.out /\ Len(e.out.methods) = Len(e.methods)
+                             /\ \A i \in 1..Len(e.methods) : e.out.methods[i] = MethodDeclared(e.methods[i]))
 =============================================================================
